@@ -12,12 +12,14 @@
 //	(d) every byte prefix of a corpus of small valid programs -> parser.New().Parse()/IsIncomplete/ShouldIndent and the
 //	    incremental (REPL) checker + diagnostic rendering.
 //
-// Oracle: no Go panic, no hang. A panic's signature is its message plus the top two frames inside the elk module.
+// Oracle: no Go panic, no hang. A panic's signature is its message plus the top two frames inside the elk module;
+// a hang's signature is the stage plus the looping function and its caller.
 package main
 
 import (
 	"fmt"
 	"os"
+	"runtime"
 	"runtime/debug"
 	"sort"
 	"strings"
@@ -39,8 +41,16 @@ import (
 	"verifharness/engine"
 )
 
-// --- in-flight input, printed to stderr when one input runs for a long time (the engine's hang report quotes the
-// head of the worker's stderr, so the stuck input is named in the violation detail) ------------------------------------
+// --- hang detection ------------------------------------------------------------------------------------------------
+// Every front-end call on one input normally takes microseconds to milliseconds. A monitor goroutine watches the input
+// in flight; when the SAME call has been running for hangAfter (a factor >= 10^3 above anything a loaded machine
+// explains) it samples the stuck goroutine's stack a few times, keeps the frames common to all samples (the stack down
+// to the function that contains the loop), prints them as a crash report and exits. The engine attributes the dead
+// worker to the running case ("host-crash: ...") and restarts the shard after it, so every non-terminating input of
+// one defect gets the same signature, whatever case it sits in. (The engine's own per-case watchdog stays as a
+// last resort with a very long timeout: it cannot tell a slow machine from a hang.)
+
+const hangAfter = 30 * time.Second
 
 type inflight struct {
 	stage, input string
@@ -48,21 +58,81 @@ type inflight struct {
 
 var cur atomic.Pointer[inflight]
 
+// guardStack returns the function names (outermost first) of the goroutine that is inside guard().
+func guardStack() []string {
+	buf := make([]byte, 1<<20)
+	n := runtime.Stack(buf, true)
+	for _, block := range strings.Split(string(buf[:n]), "\n\n") {
+		if !strings.Contains(block, "main.guard(") {
+			continue
+		}
+		var fns []string
+		for _, line := range strings.Split(block, "\n") {
+			if strings.HasPrefix(line, "\t") || strings.HasPrefix(line, "goroutine ") || line == "" {
+				continue
+			}
+			if k := strings.LastIndex(line, "("); k > 0 {
+				line = line[:k]
+			}
+			fns = append(fns, strings.TrimPrefix(line, "github.com/elk-language/elk/"))
+		}
+		for l, r := 0, len(fns)-1; l < r; l, r = l+1, r-1 {
+			fns[l], fns[r] = fns[r], fns[l]
+		}
+		return fns
+	}
+	return nil
+}
+
 func monitor() {
 	var last *inflight
-	same := 0
+	var since time.Time
 	for {
-		time.Sleep(2 * time.Second)
+		time.Sleep(time.Second)
 		p := cur.Load()
-		if p != nil && p == last {
-			same++
-			if same == 5 {
-				fmt.Fprintf(os.Stderr, "C03-STUCK: stage=%s has been running for >= 10s on input %q (bytes % x)\n", p.stage, p.input, p.input)
-			}
-		} else {
-			same = 0
-			last = p
+		if p == nil || p != last {
+			last, since = p, time.Now()
+			continue
 		}
+		if time.Since(since) < hangAfter {
+			continue
+		}
+		// still the same call: sample the stack
+		common := guardStack()
+		for k := 0; k < 6; k++ {
+			time.Sleep(40 * time.Millisecond)
+			if cur.Load() != p {
+				common = nil
+				break
+			}
+			s := guardStack()
+			m := 0
+			for m < len(common) && m < len(s) && common[m] == s[m] {
+				m++
+			}
+			common = common[:m]
+		}
+		if cur.Load() != p || len(common) == 0 {
+			last = nil
+			continue
+		}
+		// innermost frames that never changed = the function containing the loop and its caller
+		var elk []string
+		for _, f := range common {
+			if !strings.HasPrefix(f, "main.") && !strings.HasPrefix(f, "verifharness/") && !strings.HasPrefix(f, "runtime.") {
+				elk = append(elk, f)
+			}
+		}
+		where := "?"
+		if len(elk) >= 2 {
+			where = elk[len(elk)-1] + " <- " + elk[len(elk)-2]
+		} else if len(elk) == 1 {
+			where = elk[0]
+		}
+		fmt.Fprintf(os.Stderr, "panic: hang in %s\n", where)
+		fmt.Fprintf(os.Stderr, "the front end does not terminate (stage %s): input %q (bytes % x) has been inside this call for more than %v; stack of the stuck goroutine, outermost first:\n  %s\n",
+			p.stage, p.input, p.input, hangAfter, strings.Join(common, "\n  "))
+		os.Exit(2)
 	}
 }
 
@@ -383,9 +453,9 @@ func main() {
 			"(c) all regex bodies of length <= 3 (quick) / 4 (thorough) over 25 characters x all 64 flag sets through regex/parser.Parse, regex.Transpile, value.CompileRegex; " +
 			"(d) every distinct byte prefix of the corpus programs through parser.New().Parse()/IsIncomplete/ShouldIndent and a fresh incremental checker. " +
 			"Every call under recover(); non-trivial = the input contains at least one token; evaluations count front-end entry-point calls",
-		Assume:          []string{"a hang is an input that keeps a case (<= 0.5 s of work on an idle machine) beyond the 20 s watchdog twice (the second time alone, with 60 s)", "method bodies checked one at a time (MethodCheckConcurrencyLimit=1)"},
+		Assume:          []string{"a hang is one front-end call on one input (normally microseconds to milliseconds) still running after 30 s, with an unchanging outer stack over 7 samples; reported as a host-crash of the worker with the looping function in the signature", "method bodies checked one at a time (MethodCheckConcurrencyLimit=1)"},
 		HangIsViolation: true,
-		CaseTimeout:     20 * time.Second,
+		CaseTimeout:     15 * time.Minute,
 		Setup: func(c *engine.Ctx) {
 			elkrun.Init()
 			color.NoColor = false // render diagnostics with colours, as a terminal user sees them
